@@ -216,7 +216,7 @@ func (s *Sink) flushBuf(checker, caseType string, cur []string, curIdx []int) {
 	sb.WriteString(body)
 	sb.WriteString("\n].\n")
 	sb.WriteString("Definition R := Eval vm_compute in " + checker + " cases.\nPrint R.\n")
-	if s.oracle != "" {
+	if s.oracle != "" && caseType == s.caseType {
 		sb.WriteString("Definition RB := Eval vm_compute in " + s.oracle + " cases.\nPrint RB.\n")
 	}
 	if err := os.WriteFile(filepath.Join(s.dir, name), []byte(sb.String()), 0o666); err != nil {
